@@ -49,7 +49,8 @@ class Stats:
 
 
 # ------------------------------------------------------------------------------ helpers
-BUILD_CMDS = {"leaf", "doomed", "joinid", "apply", "join", "joinon", "joinp", "joinmax", "chain", "mat", "transfer", "process",
+BUILD_CMDS = {"leaf", "doomed", "joinid", "apply", "join", "joinon", "joinp", "joinpl", "joinmax", "chain", "mat", "transfer",
+              "transferp", "process",
               "unwrap", "rawu", "rawchain", "rawjoin", "conform"}
 
 
